@@ -26,17 +26,52 @@ def world():
 
 
 def _worker(job):
-    fq, known, pid = job
+    fq, known, pid, part = job
     try:
         from pyvc.driver import verify_function
         w = world()
         c = w.contracts[fq]
-        rep = verify_function(w, c, known=known, only_prop=pid)
+        rep = verify_function(w, c, known=known, only_prop=pid, part=part)
         rep["status"] = "ok"
         return rep
     except Exception as e:  # checker failure, never a violation
         return {"function": fq, "status": "checker-error", "error": f"{type(e).__name__}: {e}",
                 "traceback": traceback.format_exc()[-3000:]}
+
+
+def merge_parts(parts):
+    """reports of the slices of one function -> one report"""
+    out, by_fn = [], {}
+    for r in parts:
+        if r["status"] != "ok":
+            out.append(r)
+            continue
+        m = by_fn.get(r["function"])
+        if m is None:
+            by_fn[r["function"]] = r
+            out.append(r)
+            continue
+        obs = {o["name"]: o for o in m["obligations"]}
+        for o in r["obligations"]:
+            t = obs.get(o["name"])
+            if t is None:
+                m["obligations"].append(o)
+                continue
+            t["instances"] += o["instances"]
+            t["discharged"] += o["discharged"]
+            t["failed"] += o["failed"]
+            for b, k in o["backends"].items():
+                t["backends"][b] = t["backends"].get(b, 0) + k
+        m["n_obligation_instances"] += r["n_obligation_instances"]
+        m["solver_time_s"] = round(m["solver_time_s"] + r["solver_time_s"], 3)
+        m["wall_s"] = max(m["wall_s"], r["wall_s"])
+        for b, v in r["backends"].items():
+            e = m["backends"].setdefault(b, {"count": 0, "time_s": 0.0})
+            e["count"] += v["count"]
+            e["time_s"] = round(e["time_s"] + v["time_s"], 3)
+    # a slice that failed makes the whole function a checker error
+    bad = {r["function"] for r in out if r["status"] != "ok"}
+    return [r for r in out if r["status"] != "ok" or r["function"] not in bad]
 
 
 def load_known():
@@ -67,14 +102,18 @@ def run_property(pid, tier, seed):
         return 3
     # heaviest first so that the pool is well packed
     fqs.sort(key=lambda k: -w.contracts[k].cost_hint)
-    jobs = [(fq, known, pid) for fq in fqs]
+    jobs = []
+    for fq in fqs:
+        n = max(1, int(w.contracts[fq].cost_hint))
+        jobs += [(fq, known, pid, (i, n) if n > 1 else None) for i in range(n)]
     nproc = min(len(jobs), int(os.environ.get("VERIF_JOBS", "16")))
     if not os.environ.get("VERIF_INPROC"):
         ctx = mp.get_context("fork")
         with ctx.Pool(nproc, maxtasksperchild=1) as pool:
-            reports = pool.map(_worker, jobs, chunksize=1)
+            part_reports = pool.map(_worker, jobs, chunksize=1)
     else:
-        reports = [_worker(j) for j in jobs]
+        part_reports = [_worker(j) for j in jobs]
+    reports = merge_parts(part_reports)
     errors = [r for r in reports if r["status"] != "ok"]
     # lemmas (SMT-only composition arguments over the contracts)
     lemma_reports = []
